@@ -2,12 +2,28 @@
 """Regenerate MANIFEST.json from the table below (kept by hand)."""
 import json
 
+T_PYVC = "contract-based deductive verification (pyvc: real Python ASTs + sidecar contracts -> VCs -> z3/cvc5)"
 CLAIMS = {
- "C03": ("proof", "5.3", "Executor class invariant (waiting_on counts uncompleted dependencies; an operation starts only if all its dependencies SUCCEEDED, is SKIPPED iff one did not; FAILED keeps its error) proved preserved by every executor method for all graphs / completion orders; report contract (exit 0 only if everything succeeded, raises the first failure); stop-early: no start after a failure, in-flight groups SIGTERMed. The closing 'every planned operation is completed at loop exit' step is bounded (executor driver), stated in the evidence.", "contract-based deductive verification (pyvc: Python AST -> VCs -> z3/cvc5) + bounded executor driver on the real code"),
- "C04": ("proof", "5.4", "Slot / mode invariant of the real Executor proved inductive for all graphs, jobs values and completion orders: in-flight <= JOBS, a sequential operation is alone in flight, in-flight slots are distinct, in [0,JOBS) and disjoint from the free list, slot is None iff not parallelizable or JOBS == 1; COND_SLOT export by contract on start_execution.", "contract-based deductive verification (pyvc) + bounded executor / spawn-environment runs"),
- "C05": ("proof", "5.5", "The real search loop is proved equal to the documented selection rule (macro is_selected) for every index content, commit graph and HEAD, unbounded; --at-least rule and argv of the git calls by contract.", "contract-based deductive verification (pyvc)"),
- "C08": ("proof", "5.8", "generate_new_output_version proved strictly increasing above the last handed-out id for an arbitrary clock; create_new_version never reuses an existing directory (loop contract); seeding from the project maximum is A-SQL + bounded.", "contract-based deductive verification (pyvc)"),
- "C20": ("proof", "5.20", "The real regular expressions (translated with Python's own regex parser on every run) are proved language-equal to the documented grammar as SMT regexes; decomposition / canonical form / structural equality by contract; injectivity of output directory names as string lemmas.", "contract-based deductive verification (pyvc, string theory: cvc5 + z3)"),
+ "C01": ("proof", "5.1", "Call-site precondition of Operation.start_execution (every dependency SUCCEEDED) proved at the only call site for all graphs/orders; SUCCEEDED is only set after finish_execution returned normally (exit status 0 of a reaped pid); waiting_on == number of uncompleted dependencies (counting lemmas by induction) so an operation becomes ready only when all its dependencies completed. Planner edges: bounded (exhaustive small DAGs) until the planner proof is finished; known finding K1 (dependency reached only through a cached task).", T_PYVC + " + bounded planner / executor runs"),
+ "C02": ("other", "5.2", "Executor side proved (each ready operation is dequeued once: phases 0->1->2->3 are monotone, queues duplicate-free); planner side (each task lowered once, executed set = needed closure, cached/executed disjoint) is decided by the bounded stand-in only: exhaustive enumeration of all DAGs with <= 4 tasks x listing orders x kinds x cache flags x modes on the real planner. Labelled bounded, not proof.", "bounded exhaustive enumeration on the real planner + " + T_PYVC + " for the executor part"),
+ "C03": ("proof", "5.3", "Executor class invariant (waiting_on counts uncompleted dependencies; an operation starts only if all its dependencies SUCCEEDED, is SKIPPED iff one did not; FAILED keeps its error) proved preserved by every executor method for all graphs / completion orders; report contract (exit 0 only if everything succeeded, raises the first failure); stop-early: nothing starts after a failure, in-flight groups SIGTERMed; CLI wrapper maps ConductorError to exit 1. The closing step 'every planned operation is completed when the loop ends' is a stated assumption of the proof (ghost assume) and decided by the bounded executor driver.", T_PYVC + " + bounded executor driver"),
+ "C04": ("proof", "5.4", "Slot / mode invariant of the real Executor proved inductive for all graphs, jobs values and completion orders: in-flight <= JOBS, a sequential operation is alone in flight, in-flight slots distinct, in [0,JOBS) and disjoint from the free list, slot None iff not parallelizable or JOBS == 1; COND_SLOT exported iff a slot was assigned (postcondition of the real start_execution over the Popen call); --jobs validation.", T_PYVC),
+ "C05": ("proof", "5.5", "The real search loop is proved equal to the documented selection rule (macro is_selected) for every index content, commit graph and HEAD, unbounded; --at-least rule, flag validation, ancestor check in main and the argv of the git calls by contract.", T_PYVC),
+ "C06": ("proof", "5.6", "finish_execution: the index row is inserted/committed only in a state computed from real fields (exit status 0, both output handlers finished, args/options written) -- call-site preconditions of insert/commit plus a program-point invariant after every statement (crash points) and abort points; restore commits only after the copy loop ran to completion and rolls back on ANY exception; versions carry HEAD's hash and dirty flag.", T_PYVC + " + crash-point enumeration on the real code"),
+ "C07": ("proof", "5.7", "Postcondition of the real start_execution over the arguments received by subprocess.Popen: bash, shell, new session, cwd, command string, COND_NAME, COND_OUT (directory created first), COND_DEPS = ':'.join of the dependency directories in declared order. Snapshot consistency of the dependency directories (planner) and the support library: bounded.", T_PYVC + " + bounded planner / lib runs"),
+ "C08": ("proof", "5.8", "generate_new_output_version proved strictly increasing above the last handed-out id for an arbitrary clock; create_new_version never reuses an existing directory (loop contract); copytree/rmtree call-site preconditions (never onto an existing directory, only the staging directory is removed).", T_PYVC),
+ "C09": ("proof", "5.9", "SIGCHLD hand-off: handler / wait / _add_returncode / _extract_any proved against a rely condition for the asynchronous handler (pops <= reads <= writes <= appends, pop never on an empty list, handler reaps until no exited child is left, signalled => non-zero); wait_for_next_op attributes a status to the handle registered under the reaped pid and ignores unknown pids; the Popen object stays owned by the handle. Termination itself is relative to A-OS and bounded.", T_PYVC + " + bounded runs with real child processes"),
+ "C10": ("proof", "5.10", "Loop contract of the real tee worker over an abstract byte monoid: log file and forwarded stream receive exactly the bytes the pipe delivers, final flush, file closed; OutputHandler (pipe iff teed, log file handed to the child iff only-logged, finish joins/closes); record type and log paths at the spawn; args.json/options.json exactly when non-empty.", T_PYVC),
+ "C11": ("proof", "5.11", "traverse proved to call the visitor exactly once for every task of the closure and for nothing else (both inclusions by closed-set arguments, unbounded); restore copies exactly the listed directories under the same relative path; SQL selection and tar are assumptions with bounded round-trip runs.", T_PYVC + " + bounded archive/restore round trips"),
+ "C12": ("proof", "5.12", "restore.main: every exit by any exception leaves the index rolled back with no commit; the only commit is dominated by the completed copy loop; copytree is never applied to an existing directory; only the staging directory is removed.", T_PYVC),
+ "C13": ("proof", "5.13", "gc.main: only directories whose name is in the experiment grammar and whose (identifier, timestamp) is not recorded are deleted, task directories are never entered, --dry-run never deletes; the real patterns are proved language-equal to the grammar. Completeness of the walk (every such directory IS deleted) is bounded.", T_PYVC + " + bounded file-system trees"),
+ "C14": ("proof", "5.14", "load_transitive_closure proved sound for every graph: normal return => the closure is loaded, complete and acyclic (ghost finish time is a rank); TaskNotFound => an undefined task is reachable; CyclicDependency => a cycle is reachable (TC constrained by introduction rules only); main plans/runs only after validation and --check never does. Whole-project validation and termination: bounded.", T_PYVC + " + bounded digraph enumeration"),
+ "C15": ("proof", "5.15", "Exception-flow obligations with exec() modelled as 'may raise any Exception': nothing but a ConductorError carrying the file leaves parse_cond_file / _run_include; unique names per file (shim); include() only of .cond files; name grammar; CLI wrapper => ERROR + exit 1; --check returns before planning. The schema validator itself is bounded.", T_PYVC + " + bounded validator runs"),
+ "C16": ("proof", "5.16", "Asynchronous-abort obligations at every statement boundary (and after every call before its result is stored) of start_execution / finish_execution: the abort leaves as ConductorAbort, a spawned child is signalled or gone, nothing is recorded for a task that did not exit 0; an abort raised inside an included file stays an abort. Known findings K2, K3 (abort between spawn and registration). Found and fixed by this check: K5.", T_PYVC + " + abort injection at every line of the real code"),
+ "C17": ("proof", "5.17", "from_cwd returns the first of [cwd] ++ parents(cwd) that contains the config file (loop contract), MissingProjectRoot iff none; gc renders paths through a helper proved never to raise. Equality of effects from two directories is bounded.", T_PYVC + " + bounded runs from different directories"),
+ "C18": ("proof", "5.18", "CombineOutputs.start_execution over a ghost file system: every non-empty dependency directory is linked under the dependency's name and the link resolves to that directory (relpath law), entries of other names untouched, foreign entries never replaced (conflict error). Planner side (which directory is linked): bounded.", T_PYVC + " + bounded planner runs"),
+ "C19": ("proof", "5.19", "run_experiment_group proved equal to its documented expansion for every finite instance sequence: ghost log of the constructor calls == [run_experiment(name, run, parallelizable, args, options, deps (+ previous when chained))] ++ [combine(name, [':'+e.name])]; rejected only for a non-instance, a duplicate name or a rejecting constructor.", T_PYVC),
+ "C20": ("proof", "5.20", "The real regular expressions (translated with Python's own regex parser on every run) are proved language-equal to the documented grammar as SMT regexes; decomposition / canonical form / structural equality by contract; injectivity of output directory names as string lemmas.", T_PYVC + " (string theory: cvc5 + z3)"),
 }
 NA_REASON = "contracts for this property are still being written in this round (machinery exists; not yet claimed)"
 
